@@ -8,6 +8,9 @@ mod c16;
 mod c18;
 mod coq;
 mod extract;
+mod gen;
+mod gencase;
+mod progs;
 mod gql;
 mod items;
 mod out;
@@ -41,6 +44,7 @@ fn main() {
         "c18" => c18::run(&out, &tier, seed, shards, replay),
         "c16" => c16::run(&out, &tier, seed, shards, replay),
         "c15" => c15::run(&out, &tier, seed, shards, replay),
+        "gen" => gen::run(&out, &tier, seed, shards, replay),
         "c11" => c11::run(&out, &tier, seed, shards, replay),
         other => {
             eprintln!("unknown command {}", other);
